@@ -655,6 +655,65 @@ func runC13(c *core.Ctx) core.Meta {
 		}
 	}
 
+	// ---------------- R13.5 the entry offset is relative to the bytes handed out ----------------
+	st5 := c.Rule("R13.5", "consumers start a wavefront at (device address of Data) + KernelCodeEntryByteOffset; both parsers take the offset from the file (V2/V3: relative to the 256-byte header, which is stripped from Data; V5: relative to the descriptor's own address in .rodata), so every function that builds a code object from parsed metadata and sets Data to the kernel's instructions also stores KernelCodeEntryByteOffset = 0 on that path (must-pass between the parser call and the return of the object)", 2)
+	for _, fname := range []string{"newKernelCodeObjectFromEntireTextSection", "loadKernelCodeObjectFromELF"} {
+		fn := c.MustFunc("R13.5", instsPkg, fname)
+		if fn == nil {
+			continue
+		}
+		c.MarkAnalysed(fn)
+		g := core.BuildGraph(fn, 0, nil)
+		isReset := func(n *core.Node) bool {
+			s, ok := n.Instr.(*ssa.Store)
+			if !ok {
+				return false
+			}
+			fa, ok := s.Addr.(*ssa.FieldAddr)
+			if !ok || fieldNameOf(fa) != "KernelCodeEntryByteOffset" {
+				return false
+			}
+			k, isC := core.ConstInt(s.Val)
+			return isC && k == 0
+		}
+		for _, n := range g.Nodes {
+			cc := core.CallOf(n.Instr)
+			if cc == nil || cc.StaticCallee() == nil {
+				continue
+			}
+			name := cc.StaticCallee().Name()
+			if name != "parseV2V3Header" && name != "findV5KernelDescriptor" && name != "parseV5KernelDescriptor" {
+				continue
+			}
+			st5.Instances++
+			// from the parser call, every path to a return of a non-nil object passes a reset
+			leak := false
+			start := core.After(n, nil)
+			if v, isV := n.Instr.(ssa.Value); isV && name == "findV5KernelDescriptor" {
+				start = core.After(n, core.FactFor(n, v, 1)) // a descriptor was found
+			}
+			g.Walk(start, core.WalkOpts{ForwardOnly: true, Stop: isReset}, func(x core.State) {
+				if r, ok := x.N.Instr.(*ssa.Return); ok && len(r.Results) == 1 && !core.IsNilConst(r.Results[0]) {
+					// the fallback object without parsed metadata is not concerned
+					if name == "findV5KernelDescriptor" {
+						if call, isCall := r.Results[0].(*ssa.Call); isCall && call.Call.StaticCallee() != nil && call.Call.StaticCallee().Name() == "newKernelCodeObjectFromEntireTextSection" {
+							return
+						}
+						if core.EvalFact(x.N, n.Instr.(ssa.Value), x.F) <= 0 {
+							return
+						}
+					}
+					leak = true
+				}
+			})
+			st5.Ob(!leak)
+			st5.Sample("%s: entry offset reset to 0 after %s on every path that returns the object: %v", fname, name, !leak)
+			if leak {
+				c.ReportAt("R13.5", fn, n.Instr.Pos(), "entry-offset-not-rebased:"+name, fname+" returns a code object whose KernelCodeEntryByteOffset still holds the value "+name+" read from the file, although Data starts at the kernel's first instruction: for a linked code object the V5 value is the distance from the descriptor in .rodata to the code (e.g. 0x10c0), and the first wavefront starts that many bytes past the kernel")
+			}
+		}
+	}
+
 	return core.Meta{Level: "other",
 		Explanation: "Loading decided against an external oracle, the published amd_kernel_code_t and kernel_descriptor_t layouts transcribed as offset/width tables: every metadata read of both parsers and of the header sniffer is compared with its table row (offset, width, slice width, flag bit), bounds of the parsers against what their callers establish, precedence of the V5 descriptor over header sniffing, stripping only under a positive sniff, kernel bytes = the named symbol's range of .text, descriptor selected by name+\".kd\", size 64, inside .rodata.",
 		NotDecided:  "ELF parsing (debug/elf), the register-count override arithmetic from metadata symbols, the V5 policy overrides of rsrc2 and SGPR enables",
